@@ -977,7 +977,11 @@ func selfTest(prop string, known []KnownFinding) []string {
 			}
 			patch := it.patch
 			args := []string{"apply"}
-			if it.reverse {
+			// a fix whose reversal no longer applies mechanically (later commits changed the same lines) has a
+			// hand-rebased reversal filed under seeded/reverts/<commit>.diff (a forward patch)
+			if rb := filepath.Join(verifDir, "seeded", "reverts", it.patch+".diff"); it.reverse && fileExists(rb) {
+				patch = rb
+			} else if it.reverse {
 				diff, err := exec.Command("git", "-C", repoDir(), "diff", it.patch+"^", it.patch, "--", ".", ":(exclude)*/zz_verif_*").Output()
 				if err != nil {
 					out = append(out, "SELFTEST-SKIPPED "+it.name+": no such commit")
@@ -1022,4 +1026,9 @@ func selfTest(prop string, known []KnownFinding) []string {
 		}()
 	}
 	return out
+}
+
+func fileExists(p string) bool {
+	st, err := os.Stat(p)
+	return err == nil && !st.IsDir()
 }
